@@ -67,6 +67,10 @@ pub struct Cov {
     pub counters: BTreeMap<String, u64>,
     pub shapes: BTreeSet<u64>,
     pub trace_hash: u64,
+    /// signatures listed in known_findings.json for this property: recorded, not fatal, so that
+    /// a known finding does not shadow the rest of the run
+    #[serde(skip)]
+    pub known: BTreeSet<String>,
 }
 
 impl Cov {
@@ -81,6 +85,16 @@ impl Cov {
     /// fold an observation into the trace hash (used by the determinism self-test)
     pub fn trace(&mut self, s: &str) {
         self.trace_hash = mix(self.trace_hash, fnv(s.as_bytes()));
+    }
+    /// A violation whose signature is a listed known finding is counted and the run goes on;
+    /// anything else is returned as an error.
+    pub fn tolerate(&mut self, v: Violation) -> Result<(), Violation> {
+        if self.known.contains(&v.sig) {
+            *self.counters.entry(format!("known_finding:{}", v.sig)).or_insert(0) += 1;
+            Ok(())
+        } else {
+            Err(v)
+        }
     }
     pub fn trace_u64(&mut self, x: u64) {
         self.trace_hash = mix(self.trace_hash, x);
@@ -240,6 +254,7 @@ pub fn execute_isolated<C: Check>(
     let scn2 = scn.clone();
     let mut local = Cov::default();
     local.trace_hash = cov.trace_hash;
+    local.known = cov.known.clone();
     let handle = std::thread::Builder::new()
         .stack_size(64 << 20)
         .spawn(move || {
@@ -415,6 +430,7 @@ pub fn child<C: Check>(check: &'static C, args: &ChildArgs) -> i32 {
         .expect("progress file");
     let mut out = ChildOut::default();
     let mut cov = Cov::default();
+    cov.known = args.known_sigs.iter().cloned().collect();
     let replay_dir = Path::new(VERIF_ROOT).join("replays");
     let mut seen_sigs: BTreeSet<String> = BTreeSet::new();
     for index in args.start..args.start + args.count {
